@@ -237,6 +237,14 @@ def main(tier):
                 return any(min(p[0] for p in sh) <= pt[0] <= max(p[0] for p in sh) and min(p[1] for p in sh) <= pt[1] <= max(p[1] for p in sh) for sh in x['polys'])
             if x['mode'] == 1 and t in ('through-shape', 'costlier-than-fresh-router') and (_inside(x['src']) or _inside(x['dst'])):
                 key += ':an-end-lies-inside-a-shape'
+            # class name only: the fresh route is LONGER than the kept one and wins only by having fewer bends (segment penalty > 0)
+            def _bends(rt):
+                pts = [p for i, p in enumerate(rt) if i == 0 or p != rt[i - 1]]
+                return sum(1 for a, b, c in zip(pts, pts[1:], pts[2:]) if (b[0] - a[0]) * (c[1] - b[1]) - (b[1] - a[1]) * (c[0] - b[0]) != 0 or (b[0] - a[0]) * (c[0] - b[0]) + (b[1] - a[1]) * (c[1] - b[1]) <= 0)
+            def _len(rt):
+                return sum(((a[0] - b[0]) ** 2 + (a[1] - b[1]) ** 2) ** 0.5 for a, b in zip(rt, rt[1:]))
+            if x['mode'] == 0 and t == 'costlier-than-fresh-router' and x['P'] > 0 and _bends(x['fraw']) < _bends(x['iraw']) and _len(x['fraw']) > _len(x['iraw']) + 1e-9:
+                key += ':fresh-route-is-longer-with-fewer-bends'
             vd.violation(key,
                          '%s after op %d of history %s (mode=%d P=%d): scene=%s %s->%s incremental=%s fresh=%s' %
                          (t, op, hists[hi], x['mode'], x['P'], [RC.poly_rect(s) for s in scene], [v // LS for v in x['src']], [v // LS for v in x['dst']], x['iraw'], x['fraw']),
